@@ -72,10 +72,10 @@ Definition cinv (s : nat) (b : bstate) (l : list (token * test)) : Prop :=
               /\ stack3 (b_stack b) = flat_map kt_elems (path_kts l)
               /\ b_comments b = flat_map kt_comments (path_kts l).
 
-Lemma reach_cinv b1 : cinv Table.start_state b1 [] -> forall s b l, reach rP tok_made b1 s b l ->
+Lemma reach_cinv b1 m1 : cinv Table.start_state b1 [] -> forall s b l m, reach rP tok_step b1 m1 s b l m ->
   cinv s b l /\ Forall (fun kt => tok_made (fst kt) (snd kt)) (path_kts l).
 Proof.
-  intros H0 s b l R. induction R as [|s b l x y t b' R IH Hx Hid Hy Ht Hb]; [split; [exact H0 | constructor]|].
+  intros H0 s b l m R. induction R as [|s b l m x y t b' m' R IH Hx Hid Hy Ht Hb]; [split; [exact H0 | constructor]|].
   destruct IH as [(rec & Hl & S & Ce & Cc) Ft].
   pose proof kappa_ok as G. unfold ord_ok in G. apply andb_prop in G as [_ G]. rewrite forallb_forall in G.
   specialize (G x Hx). rewrite Hid, Hl in G. rewrite forallb_forall in G. specialize (G y Hy).
@@ -89,7 +89,7 @@ Proof.
   - exists rec'. split; [exact Hl'|]. split; [eapply csrel_weaken; eauto|]. rewrite Pk, !flat_map_app. split.
     + rewrite C', Ce, (added_kts _ _ _ _ _ Hb). reflexivity.
     + rewrite (bsteps_comments _ _ Mt _ _ _ Hb), Cc. reflexivity.
-  - rewrite Pk. apply Forall_app. split; [exact Ft|]. apply Forall_forall. intros kt Hin. apply repeat_spec in Hin. subst kt. exact Ht.
+  - rewrite Pk. apply Forall_app. split; [exact Ft|]. apply Forall_forall. intros kt Hin. apply repeat_spec in Hin. subst kt. exact (tok_step_made _ _ _ _ Ht).
 Qed.
 
 Lemma start_cinv b b1 : b_start rP RGherkinDocument (reset_builder b) = BOk b1 -> cinv Table.start_state b1 [].
@@ -154,8 +154,8 @@ Proof.
   intros W. unfold parse_source. pose proof (source_delivery stop m b src W) as Dl. unfold parse_tokens, parse_tokens_with in *.
   destruct (parse rP stop (scan src) (reset_matcher dialects m) (reset_builder b)) as [[] c|e c|es c|c|] eqn:P; try discriminate.
   destruct (builder_result (bs c)) as [d0|] eqn:Br; [|discriminate]. intros H. inversion H; subst. clear H.
-  destruct (path_replay rP wf_ms wf_ms_kept tok_made pipe_made pipe_eof' _ _ _ _ _ (proj1 (reset_matcher_wf' m W)) P) as (b2 & s & b3 & l & Hs & R & He & Hend & Hev).
-  destruct (reach_cinv b2 (start_cinv _ _ Hs) s b3 l R) as [(rec & Hl & S & Ce & Cc) Ft].
+  destruct (path_replay rP wf_ms wf_ms_kept quiet_p p_fail p_raise p_quiet p_la p_guard tok_step pipe_step pipe_eof' _ _ _ _ _ (proj1 (reset_matcher_wf' m W)) P) as (b2 & s & b3 & l & m2 & Hs & R & He & Hend & Hev).
+  destruct (reach_cinv b2 _ (start_cinv _ _ Hs) s b3 l m2 R) as [(rec & Hl & S & Ce & Cc) Ft].
   destruct (ends_doc3 s He) as (f & Hf & Hr). rewrite Hf in Hl. inversion Hl; subst rec.
   exists (path_kts l). split; [|split; [exact Ft | exact (final_conserve _ _ _ _ _ S Hr Ce Cc Hend Br)]].
   rewrite <- Dl. unfold delivered. rewrite Hev. cbn [flat_map]. rewrite flat_map_app. cbn. rewrite app_nil_r. symmetry. apply delivered_path.
